@@ -68,10 +68,22 @@ func hashKey(prefix string, id int32) gotomic.Hashable {
 	return gotomic.StringKey(fmt.Sprintf("%s/%d", prefix, id))
 }
 
+// inboundKey is the key of an exchange started by the peer (its QoS 2 PUBLISH, answered
+// by PUBREC, waiting for PUBREL). Its packet identifier is chosen by the peer, the
+// identifiers of the exchanges started here come from our own pool: the two number spaces
+// are independent and must not collide in the table.
+func inboundKey(prefix string, id int32) gotomic.Hashable {
+	return gotomic.StringKey(fmt.Sprintf("%s/in/%d", prefix, id))
+}
+
 func (q *queue) Ack(prefix string, pkt packet.Packet) error {
 	switch p := pkt.(type) {
 	case Ackers:
 		k := hashKey(prefix, p.GetMessageId())
+		if pkt.Type() == packet.PUBREL {
+			// PUBREL is the only acknowledgement that completes an exchange started by the peer
+			k = inboundKey(prefix, p.GetMessageId())
+		}
 		// A packet of the wrong type must leave the pending exchange untouched: look at
 		// the entry and remove it in one step with respect to registration and expiry.
 		q.mu.Lock()
@@ -131,7 +143,7 @@ func (q *queue) Insert(prefix string, pkt packet.Packet, deadline time.Time, cal
 			pid:      mid,
 			deadline: deadline,
 		}
-		return q.push(hashKey(prefix, mid), msg)
+		return q.push(inboundKey(prefix, mid), msg)
 	case *packet.PubRel:
 		mid := p.MessageId
 		if mid == 0 {
